@@ -388,6 +388,10 @@ func init() {
 		},
 		"strings.Contains": func(fr *frame, a []value) value { return symContains(a[0], a[1]) },
 		"strings.ReplaceAll": func(fr *frame, a []value) value {
+			if _, concrete := a[2].(string); !concrete {
+				// a symbolic replacement text (a message rendered around a symbolic value): the token fmt's %v gives
+				return strings.ReplaceAll(strArg(a[0]), strArg(a[1]), fmt.Sprint(toNative(a[2])))
+			}
 			return strings.ReplaceAll(strArg(a[0]), strArg(a[1]), strArg(a[2]))
 		},
 		"strings.ToLower": func(fr *frame, a []value) value { return strings.ToLower(strArg(a[0])) },
